@@ -43,9 +43,19 @@ def main():
         res["demo_passes_without"] = r2.returncode == 0
         for c in checks:
             t0 = time.time()
-            env = dict(os.environ, VERIF_REPO=scratch, VERIF_OUT=out)
+            # (the saved inputs are switched off: the question here is whether the
+            # generated search finds the change on its own)
+            env = dict(os.environ, VERIF_REPO=scratch, VERIF_OUT=out, VERIF_NO_REGRESS="1")
             r = subprocess.run([os.path.join(VERIF, "check"), c, "--tier", "quick"], capture_output=True, text=True, env=env, cwd=VERIF)
             lines = [l for l in r.stdout.splitlines() if not l.startswith("KNOWN-FINDING")]
+            # keep the shrunk failing input next to the change (tools/build_regress.py
+            # turns those that pass on /repo into the regression corpus)
+            for l in lines:
+                if l.startswith("VIOLATION property=") and "replay=" in l:
+                    src = os.path.join(out, l.split("replay=", 1)[1].strip())
+                    if os.path.exists(src):
+                        seed_ = os.environ.get("VERIF_SEED", "1")
+                        shutil.copy(src, os.path.join(d, f"replay.{c}.s{seed_}.json"))
             res["checks"][c] = {
                 "exit": r.returncode,
                 "detected": r.returncode == 1,
